@@ -156,6 +156,13 @@ def run_case(case, ctx):
     reqs, meta = [], {}
     for i, (a, z) in enumerate(pairs[:10]):
         nodes, hops, kind = gen_includes(rng, model, model.roadm_of[a], model.roadm_of[z])
+        # users also list the end points themselves: such entries are trivially met and are dropped silently
+        if nodes and rng.random() < 0.2:
+            nodes, hops = [a] + nodes, [rng.choice(['STRICT', 'LOOSE'])] + hops
+            kind += '+src'
+        if nodes and rng.random() < 0.15:
+            nodes, hops = nodes + [z], hops + [rng.choice(['STRICT', 'LOOSE'])]
+            kind += '+dst'
         bidir = rng.random() < 0.4
         reqs.append(S.request(i, a, z, nodes=nodes, hops=hops, bidir=bidir, trx_mode='mode 1'))
         meta[str(i)] = {'src': a, 'dst': z, 'nodes': nodes, 'hops': hops, 'kind': kind, 'bidir': bidir}
@@ -167,6 +174,11 @@ def run_case(case, ctx):
     for rq, path in zip(rqs, paths):
         m = meta[rq.request_id]
         src, dst, includes, hops = m['src'], m['dst'], m['nodes'], m['hops']
+        if includes and (includes[0] == src or includes[-1] == dst):
+            # the end points are on every path: only the other entries (with their own hop types) are constraints
+            keep = [i for i, u in enumerate(includes) if not ((i == 0 and u == src) or (i == len(includes) - 1 and u == dst))]
+            includes, hops = [includes[i] for i in keep], [hops[i] for i in keep]
+            ctx.count('endpoint_entries_in_list')
         ctx.count('requests_judged')
         feas = feasible_paths(model, src, dst, includes)
         free = feasible_paths(model, src, dst, [])
